@@ -72,6 +72,20 @@ pub open spec fn has_addr(f: il::Function, b: usize, i: usize, a: u64) -> bool {
     exists|q: int| #[trigger] instr_at(blk, q, i) && blk.instructions@[q].address == Some(a)
 }
 
+/// `r` is the address field of the instruction with index `i` in block `b` of `f`
+pub open spec fn addr_at(f: il::Function, b: usize, i: usize, r: Option<u64>) -> bool {
+    let blk = f.control_flow_graph.blocks_view()[b];
+    exists|q: int| #[trigger] instr_at(blk, q, i) && blk.instructions@[q].address == r
+}
+
+pub proof fn lemma_addr_at(f: il::Function, b: &il::Block, ins: &il::Instruction)
+    requires rfl_points_in(f, il::RefFunctionLocation::Instruction(b, ins)),
+    ensures addr_at(f, b.index, ins.index, ins.address),
+{
+    let q = choose|q: int| 0 <= q < b.instructions@.len() && #[trigger] b.instructions@[q] == *ins;
+    assert(instr_at(f.control_flow_graph.graph.vertices@[b.index], q, ins.index));
+}
+
 /// data invariant of a driver: what `step` needs and re-establishes
 pub open spec fn driver_wf(d: Driver) -> bool {
     &&& (*d.program).program_wf()
@@ -559,7 +573,7 @@ impl Driver {
     let ghost l0 = self.location;
     let ghost st0 = store_of(self.state);
     let ghost s0 = sigma_of(self.state);
-    proof { lemma_env(st0); }
+    proof { lemma_env(st0); lemma_allows_bad_location(p0, l0, s0); }
 //@ before 0 `match *location.function_location() {`
     let ghost f = *location.function;
     let ghost lc = location.loc();
@@ -572,11 +586,19 @@ impl Driver {
     proof {
         lemma_instr_facts(f, location.function_location->Instruction_0, instruction);
         lemma_op_atyped(st0, op);
+        lemma_allows_op_fail(p0, l0, s0, f, lc->Instruction_0, lc->Instruction_1, op);
     }
 //@ before 0 `match successor.type_().clone() {`
     let ghost st1 = store_of(successor.state);
     let ghost s1 = sigma_of(successor.state);
-    proof { lemma_env(st1); }
+    proof {
+        lemma_env(st1);
+        match successor.type_ {
+            SuccessorType::FallThrough => { lemma_allows_select(p0, l0, s0, f, lc, s1); }
+            SuccessorType::Branch(a) => { lemma_allows_branch(p0, l0, s0, f, lc->Instruction_0, lc->Instruction_1, op, s1, a); }
+            SuccessorType::Intrinsic(_) => {}
+        }
+    }
 //@ after 0 `let locations = location.forward()?;`
     let ghost v = locations@;
 //@ before 0 `Ok(Driver::new( self.program.clone(), locations[0].clone().into(), successor.into(),`
@@ -635,9 +657,11 @@ impl Driver {
         assert(is_block_start(f, t, l_start));
         assert((|l2: Loc| succ(f, lc, l2))(l_start));
         lemma_listed(p0, f, lc, v, 0);
+        lemma_allows_edge(p0, l0, s0, f, lc->Edge_0, lc->Edge_1);
     }
 //@ after 2 `let locations = location.forward()?;`
     let ghost v = locations@;
+    proof { lemma_allows_select(p0, l0, s0, f, lc, s0); }
 //@ before 1 `return Ok(Driver::new(`
     let ghost tk = takes(f, lc, s0, v[0].loc());
     proof {
@@ -672,6 +696,29 @@ impl Driver {
     ensures /*@field*/ *r == *self.program,
 //@ end
 
+// OBSERVATION: `address()` uses `expect`: it PANICS when the driver's location does not apply to its program
+// (stated as the precondition; `step` never produces such a driver from a well-formed one, see step.ensures.inv)
+//@ fn impl Driver :: fn address
+//@ spec
+    requires
+        (*self.program).program_wf(),
+        loc_applies(*self.program, self.location),
+    ensures
+        /*@instruction*/ self.location.function_location matches il::FunctionLocation::Instruction(b, i) ==>
+            addr_at(loc_fn(*self.program, self.location)->Some_0, b, i, r),
+        /*@other*/ !(self.location.function_location is Instruction) ==> r is None,
+//@ enter
+    proof {
+        let k = self.location.function_index->Some_0;
+        let f = *self.program.functions@[k];
+        assert(f.function_wf());
+        assert forall|bk: &il::Block, ins: &il::Instruction| #[trigger] rfl_points_in(f, il::RefFunctionLocation::Instruction(bk, ins))
+            implies addr_at(f, bk.index, ins.index, ins.address) by {
+            lemma_addr_at(f, bk, ins);
+        }
+    }
+//@ end
+
 //@ fn impl Driver :: fn location
 //@ spec
     ensures /*@field*/ *r == self.location,
@@ -689,4 +736,160 @@ impl Driver {
         /*@write*/ final(self).state == *final(r),
         /*@frame*/ final(self).program == old(self).program && final(self).location == old(self).location && final(self).architecture == old(self).architecture,
 //@ end
+}
+
+// ---- determinism -------------------------------------------------------------------------------------------------
+
+/// the guard of successor `l2` (if it is an edge with a guard) is well-sorted, well-typed and evaluates to a value
+pub open spec fn guard_evaluates(f: il::Function, s1: Sigma, l2: Loc) -> bool {
+    l2 matches Loc::Edge(h, t) ==> (cond_of(f, h, t) matches Some(c) ==>
+        expr_wf(c) && atyped_in(s1.scalars, c) && eval_spec(c, aenv(s1.scalars)) is Val)
+}
+
+/// "the guards are mutually exclusive and exhaustive" at location `l` in state `s1`: every guard evaluates, an
+/// unconditional edge is the only successor, and exactly one successor may be taken
+pub open spec fn guards_decide(f: il::Function, l: Loc, s1: Sigma) -> bool {
+    &&& forall|l2: Loc| #[trigger] succ(f, l, l2) ==> guard_evaluates(f, s1, l2)
+    &&& !missing_cond(f, l)
+    &&& forall|l2: Loc, l3: Loc| #[trigger] takes(f, l, s1, l2) && #[trigger] takes(f, l, s1, l3) ==> l2 == l3
+    &&& exists|l2: Loc| #[trigger] takes(f, l, s1, l2)
+}
+
+/// the program has exactly one instruction with address `a`
+pub open spec fn branch_decides(p: il::Program, a: u64) -> bool {
+    &&& exists|l1: il::ProgramLocation| #[trigger] addr_loc(p, a, l1)
+    &&& forall|l1: il::ProgramLocation, l2: il::ProgramLocation| #[trigger] addr_loc(p, a, l1) && #[trigger] addr_loc(p, a, l2) ==> l1 == l2
+}
+
+pub open spec fn op_decides(p: il::Program, f: il::Function, l: Loc, op: Operation, s: Sigma) -> bool {
+    op_wf(op) && op_atyped(s.scalars, op) && match op_spec(op, s) {
+        OpResult::Fault(k) => true,
+        OpResult::Next(s1, Flow::FallThrough) => guards_decide(f, l, s1),
+        OpResult::Next(s1, Flow::Branch(a)) => branch_decides(p, a),
+    }
+}
+
+pub open spec fn instr_decides(p: il::Program, f: il::Function, b: usize, i: usize, s: Sigma) -> bool {
+    forall|op: Operation| #[trigger] op_at(f, b, i, op) ==> op_decides(p, f, Loc::Instruction(b, i), op, s)
+}
+
+/// the hypothesis of determinism: operands are well-sorted and well-typed, guards are mutually exclusive and
+/// exhaustive in the state the operation leaves, an indirect branch goes to a unique existing instruction
+pub open spec fn step_decides(p: il::Program, l: il::ProgramLocation, s: Sigma) -> bool {
+    loc_applies(p, l) ==> ({
+        let f = loc_fn(p, l)->Some_0;
+        f.function_wf() && match l.function_location {
+            il::FunctionLocation::Instruction(b, i) => instr_decides(p, f, b, i, s),
+            il::FunctionLocation::Edge(h, t) => true,
+            il::FunctionLocation::EmptyBlock(b) => guards_decide(f, Loc::EmptyBlock(b), s),
+        }
+    })
+}
+
+/// two results say the same: the same program, location and WHOLE state, or both an error
+pub open spec fn res_agree(r1: StepRes, r2: StepRes) -> bool {
+    match r1 {
+        StepRes::Next(p1, l1, s1) => r2 == r1,
+        StepRes::Fail(e1) => r2 is Fail,
+    }
+}
+
+pub proof fn lemma_op_unique(f: il::Function, b: usize, i: usize, op1: Operation, op2: Operation)
+    requires f.function_wf(), f.control_flow_graph.has_block(b), op_at(f, b, i, op1), op_at(f, b, i, op2),
+    ensures op1 == op2,
+{
+    let blk = f.control_flow_graph.graph.vertices@[b];
+    assert(blk.block_wf());
+    let q1 = choose|q: int| #[trigger] instr_at(blk, q, i) && blk.instructions@[q].operation == op1;
+    let q2 = choose|q: int| #[trigger] instr_at(blk, q, i) && blk.instructions@[q].operation == op2;
+    if q1 < q2 { assert(blk.instructions@[q1].index != blk.instructions@[q2].index); }
+    if q2 < q1 { assert(blk.instructions@[q2].index != blk.instructions@[q1].index); }
+}
+
+/// successor selection is deterministic when the guards decide
+pub proof fn lemma_select_deterministic(p: il::Program, f: il::Function, l: Loc, s1: Sigma, r1: StepRes, r2: StepRes)
+    requires guards_decide(f, l, s1), select_allows(p, f, l, s1, r1), select_allows(p, f, l, s1, r2),
+    ensures r1 is Next, r1 == r2,
+{
+    let w = choose|l2: Loc| #[trigger] takes(f, l, s1, l2);
+    assert(succ(f, l, w) && guard_evaluates(f, s1, w));
+    assert forall|e: Error| !select_allows(p, f, l, s1, StepRes::Fail(e)) by {
+        if e is ExecutorNoValidLocation && none_taken(f, l, s1) {
+            assert(blocked(f, s1, w));
+        }
+        if guard_fails(f, l, s1, e) {
+            let l2 = choose|l2: Loc| #[trigger] succ(f, l, l2) && guard_fault(f, s1, l2, e);
+            assert(guard_evaluates(f, s1, l2));
+        }
+    }
+    match r1 {
+        StepRes::Next(p1, l1, s2) => {
+            let a = choose|l2: Loc| #[trigger] takes(f, l, s1, l2) && l1 == ploc(f, l2);
+            match r2 {
+                StepRes::Next(p2, l2_, s3) => {
+                    let b = choose|l2: Loc| #[trigger] takes(f, l, s1, l2) && l2_ == ploc(f, l2);
+                    assert(a == b);
+                }
+                StepRes::Fail(e) => {}
+            }
+        }
+        StepRes::Fail(e) => {}
+    }
+}
+
+/// ON PROGRAMS WHOSE GUARDS ARE MUTUALLY EXCLUSIVE AND EXHAUSTIVE THE STEP IS DETERMINISTIC: any two results the
+/// relation allows are the same program, the same location and the same whole state (or both are errors)
+pub proof fn lemma_step_deterministic(p: il::Program, l: il::ProgramLocation, s: Sigma, r1: StepRes, r2: StepRes)
+    requires step_decides(p, l, s), step_allows(p, l, s, r1), step_allows(p, l, s, r2),
+    ensures res_agree(r1, r2),
+{
+    reveal(step_allows);
+    if loc_applies(p, l) {
+        let f = loc_fn(p, l)->Some_0;
+        match l.function_location {
+            il::FunctionLocation::Instruction(b, i) => {
+                let op1 = choose|op: Operation| #[trigger] op_at(f, b, i, op) && instr_allows(p, f, Loc::Instruction(b, i), op, s, r1);
+                let op2 = choose|op: Operation| #[trigger] op_at(f, b, i, op) && instr_allows(p, f, Loc::Instruction(b, i), op, s, r2);
+                lemma_op_unique(f, b, i, op1, op2);
+                assert(op_decides(p, f, Loc::Instruction(b, i), op1, s));
+                match op_spec(op1, s) {
+                    OpResult::Fault(k) => {}
+                    OpResult::Next(s1, Flow::FallThrough) => {
+                        lemma_select_deterministic(p, f, Loc::Instruction(b, i), s1, r1, r2);
+                    }
+                    OpResult::Next(s1, Flow::Branch(a)) => {
+                        lemma_branch_deterministic(p, a, s1, r1, r2);
+                    }
+                }
+            }
+            il::FunctionLocation::Edge(h, t) => {
+                let a = choose|l2: Loc| #[trigger] succ(f, Loc::Edge(h, t), l2) && r1->Next_1 == ploc(f, l2);
+                let b = choose|l2: Loc| #[trigger] succ(f, Loc::Edge(h, t), l2) && r2->Next_1 == ploc(f, l2);
+                assert(is_block_start(f, t, a) && is_block_start(f, t, b));
+            }
+            il::FunctionLocation::EmptyBlock(b) => {
+                lemma_select_deterministic(p, f, Loc::EmptyBlock(b), s, r1, r2);
+            }
+        }
+    }
+}
+
+/// an indirect branch to an address that exactly one instruction of the program has
+pub proof fn lemma_branch_deterministic(p: il::Program, a: u64, s1: Sigma, r1: StepRes, r2: StepRes)
+    requires branch_decides(p, a), branch_allows(p, a, s1, r1), branch_allows(p, a, s1, r2),
+    ensures r1 is Next, r1 == r2,
+{
+    let w = choose|l1: il::ProgramLocation| #[trigger] addr_loc(p, a, l1);
+    // the program has an instruction with that address: nothing is lifted, no error
+    let k = w.function_index->Some_0;
+    let b = w.function_location->Instruction_0;
+    let i = w.function_location->Instruction_1;
+    let f = *p.functions@[k];
+    let blk = f.control_flow_graph.blocks_view()[b];
+    let q = choose|q: int| #[trigger] instr_at(blk, q, i) && blk.instructions@[q].address == Some(a);
+    if program_no_addr(p, a) {
+        assert(fn_no_addr(*p.functions@[k], a));
+        assert(block_no_addr(f.control_flow_graph.graph.vertices@[b], a));
+        assert(blk.instructions@[q].address != Some(a));
+    }
 }
